@@ -441,3 +441,22 @@ func (w *World) PathsCreatedBy(names ...string) []string {
 	sort.Strings(out)
 	return out
 }
+
+// Rename moves a file-system node (harness use: a socket file that is out of
+// reach for a while). A Unix listener stays bound to its original path.
+//
+//go:norace
+func (w *World) Rename(from, to string) error {
+	from, to = w.rp(from), w.rp(to)
+	w.mu.Lock()
+	n := w.fs[from]
+	if n == nil {
+		w.mu.Unlock()
+		return &fs.PathError{Op: "rename", Path: from, Err: ENOENT}
+	}
+	delete(w.fs, from)
+	w.fs[to] = n
+	w.mu.Unlock()
+	w.Ev(Cur(), "rename", from, to)
+	return nil
+}
